@@ -318,7 +318,8 @@ func closureCheck(m *ir.Module) string {
 		c.descend(d, "namedmd:"+d.Name, nil)
 	}
 	for _, f := range m.Funcs {
-		if f.Parent != nil && f.Parent != m {
+		// (every module handed to this walk comes from the parser, which sets the parent of every function: a nil parent is a broken link too)
+		if f.Parent != m {
 			c.fail("func %s: wrong parent module", f.Ident())
 		}
 		locals := localsOf(f)
